@@ -117,6 +117,14 @@ def structural(rng, viol, evals):
             exp_w = [x / sum(wp) for x in wp]
             if any(abs(g - e) > 1e-12 for g, e in zip(got_w, exp_w)):
                 bad('%s:weights' % opn, case, got_w, exp_w)
+        # forced application of a pipeline that would not fire: `force_apply` is documented as "bool or int"
+        for fa in (True, 1):
+            case = {'op': 'Compose(p=0)(force_apply=%r)' % fa, 'seed': seed}
+            del CALLS[:]
+            random.seed(seed)
+            A.Compose([Rec(ident=3, p=1.0), A.OneOf([Rec(ident=4, p=0.5)], p=1.0)], p=rng.choice([0.0, 0.3]))(image=IMG, force_apply=fa)
+            if list(CALLS) != [3, 4]:
+                bad('forced:compose', case, list(CALLS), [3, 4])
         # forced application through a nested operator: OneOf -> OneOf -> leaf with p tiny but > 0
         case = {'op': 'OneOf(OneOf)', 'seed': seed}
         got = run_once(A.Compose([A.OneOf([A.OneOf([Rec(ident=7, p=1e-9)], p=1e-9)], p=1.0)]), seed)
